@@ -14,7 +14,9 @@ import (
 	"runtime"
 	"runtime/debug"
 	"strings"
+	"sync/atomic"
 	"syscall"
+	"time"
 
 	"verif/harness/core"
 )
@@ -64,7 +66,55 @@ func (c *runCtx) note(format string, a ...any) {
 }
 
 // guarded runs f under recover; a panic becomes a failure of the given oracle.
+// watchdog state: the call currently running under guarded()
+var (
+	callStartNs atomic.Int64
+	callCPUms   atomic.Int64
+	callWhat    atomic.Value // func() string
+	callOracle  atomic.Value // string
+)
+
+// startWatchdog ends the process with a "hang" failure when one guarded call has consumed more than
+// hangCPUms of CPU (a call that never returns cannot be judged after the fact).
+func (c *runCtx) startWatchdog(out string) {
+	const hangCPUms = 8000
+	go func() {
+		for {
+			time.Sleep(250 * time.Millisecond)
+			st := callStartNs.Load()
+			if st == 0 {
+				continue
+			}
+			if cpuMs()-callCPUms.Load() < hangCPUms {
+				continue
+			}
+			desc := "(unknown call)"
+			if w, ok := callWhat.Load().(func() string); ok && w != nil {
+				desc = w()
+			}
+			oracle, _ := callOracle.Load().(string)
+			prop := c.prop
+			c.res.Failures = append(c.res.Failures, core.Failure{Prop: prop, Oracle: prop + ".cpu", Symptom: "hang", Trigger: oracle,
+				Detail: fmt.Sprintf("%s has been running for more than %d ms of CPU time without returning (hang)", desc, hangCPUms)})
+			c.res.FailCount++
+			b, _ := json.Marshal(c.res)
+			os.WriteFile(out, b, 0o666)
+			os.Exit(0)
+		}
+	}()
+}
+
 func (c *runCtx) guarded(oracle, trigger string, what any, f func()) (panicked bool) {
+	switch w := what.(type) {
+	case string:
+		callWhat.Store(func() string { return w })
+	case func() string:
+		callWhat.Store(w)
+	}
+	callOracle.Store(oracle)
+	callCPUms.Store(cpuMs())
+	callStartNs.Store(time.Now().UnixNano())
+	defer callStartNs.Store(0)
 	defer func() {
 		if r := recover(); r != nil {
 			panicked = true
@@ -170,7 +220,9 @@ func main() {
 	// Goit prints to stdout in a few APIs (Reflog.Show, DeleteBranch): keep our stdout clean
 	devnull, _ := os.OpenFile(os.DevNull, os.O_WRONLY, 0)
 	os.Stdout = devnull
+	c.startWatchdog(out)
 	m(c)
+	callStartNs.Store(0)
 	b, _ := json.Marshal(c.res)
 	if err := os.WriteFile(out, b, 0o666); err != nil {
 		fmt.Fprintln(os.Stderr, err)
